@@ -97,7 +97,7 @@ def run(ctx):
                 "level 1, 2, None for every stored id and two absent ids; featuretype/order_by/reverse arguments; "
                 "iter_by_parent_childs. non-trivial = distinct graph with >= 1 level-2 relation")
     cmds, exp, tags = [], [], []
-    ngraphs = 60 if not ctx.thorough else 600
+    ngraphs = 150 if not ctx.thorough else 1000
     cfg = dbside.Cfg()
     for gi in range(ngraphs):
         nodes = gen_db.rand_gff3_graph(r, n=r.choice([1, 2, 3, 4, 5, 6, 6, 8, 11, 15]))
@@ -160,6 +160,26 @@ def run(ctx):
                         res.oracle_failures.append(("children(featuretype=%r, order_by='start', reverse=%r) wrong" % (ft, rev),
                                                     {"lines": lines, "id": x, "returned": got, "expected_set": sorted(want)}))
                     res.evaluations += 1
+                # the same graph reached through create_db of a prefix + update of the rest (relations are
+                # recomputed on a table that already holds level-2 rows)
+                if len(lines) >= 2:
+                    cut = r.randrange(1, len(lines))
+                    p1 = dbside.write_lines(os.path.join(ctx.scratch, "g1.gff3"), lines[:cut])
+                    p2 = dbside.write_lines(os.path.join(ctx.scratch, "g2.gff3"), lines[cut:])
+                    dbu, repu = dbside.py_create(p1, cfg)
+                    if dbu is not None:
+                        try:
+                            dbu.update(p2, make_backup=False, **cfg.update_kwargs())
+                            if r.random() < 0.5:
+                                dbu.update(dbside.write_lines(os.path.join(ctx.scratch, "g3.gff3"),
+                                                             ["chrZ\tsrc\tregion\t1\t2\t.\t+\t.\tID=zz_extra"]),
+                                           make_backup=False, **cfg.update_kwargs())
+                                nodes_u = nodes + [{"id": "zz_extra", "parents": [], "ftype": "region", "level": 0}]
+                            else:
+                                nodes_u = nodes
+                            check_db(dbu, nodes_u, res, lines, "create_db(first %d lines) + update(rest)" % cut)
+                        except Exception as ex:
+                            res.oracle_failures.append(("update raised %r" % ex, {"lines": lines, "cut": cut}))
                 # iter_by_parent_childs
                 for unit in db.iter_by_parent_childs(featuretype="gene"):
                     p = unit[0].id
